@@ -44,6 +44,10 @@ theorem sl_head {ty : String → Bool} : ∀ (l : SL), WFSL ty l → l ≠ .nil 
     | consD _ _ hwd _ _ =>
       obtain ⟨t, r, h, _, _, hn⟩ := Dcl.head hwd
       exact ⟨t, r ++ l.flat, by simp [SL.flat, h], hn⟩
+  | .consP p l, _, _ => by
+    cases p with
+    | none => exact ⟨("PPPRAGMA", "pragma"), l.flat, by simp [SL.flat, pragmaFlat], by decide⟩
+    | some str => exact ⟨("PPPRAGMA", "pragma"), ("PPPRAGMASTR", str) :: l.flat, by simp [SL.flat, pragmaFlat], by decide⟩
 
 /-- **`_parse_compound_statement`** on a function body: declarations and statements in any order,
 nested blocks with their own declarations, `for` loops with declarations -/
@@ -77,6 +81,7 @@ theorem compound_ok (l : SL) (hw : WFSL env.ty l)
       | nil => exact absurd rfl hnil
       | cons _ _ => rfl
       | consD _ _ => rfl
+      | consP _ _ => rfl
     show pCompoundStatement (run G) s = _
     simp [pCompoundStatement, StmtSkel.bnd, h1, h2, h3, h4, StmtSkel.pur, tokCoord, tc, hbv]
 
